@@ -402,6 +402,13 @@ func Extra(name string) *DAG {
 		l := d.Blob("L", MTLayer, "l")
 		d.Manifest("M", c, []int{l}, no())
 		d.Manifest("R", c, nil, ManifestOpt{Subject: l, ArtifactType: "application/vnd.test.sig"})
+	case "many-referrers": // more pending predecessors at once than any small shape has (work-list growth)
+		c := d.Blob("C", MTConfig, "{}")
+		l := d.Blob("L", MTLayer, "l")
+		m := d.Manifest("M", c, []int{l}, no())
+		for i := 0; i < 70; i++ {
+			d.Manifest(fmt.Sprintf("R%02d", i), c, nil, ManifestOpt{Subject: m, ArtifactType: "application/vnd.test.sig", Annotations: map[string]string{"n": fmt.Sprint(i)}})
+		}
 	default:
 		panic("unknown extra shape " + name)
 	}
